@@ -13,6 +13,7 @@ ID=${1:?id}; MODE=${2:-quick}
 id=$(echo "$ID" | tr 'A-Z' 'a-z')
 REPO=${VERIF_REPO:-/repo}
 TAG=""
+mkdir -p .work/bin evidence
 export VERIF_MODFLAG=""
 if [ "$REPO" != /repo ]; then
   TAG="-$(echo "$REPO" | md5sum | cut -c1-8)"
